@@ -1,5 +1,7 @@
 mod util;
 mod c09;
+mod c10;
+mod c11;
 use std::io::Write;
 use util::*;
 
@@ -7,6 +9,8 @@ fn exec_line(line: &str) -> String {
     let prop = line.split_whitespace().next().unwrap_or("");
     match prop {
         "c09" => c09::exec(line),
+        "c10" => c10::exec(line),
+        "c11" => c11::exec(line),
         _ => "bad-op".into(),
     }
 }
@@ -24,6 +28,8 @@ fn main() {
             let prop = a.rest.get(0).cloned().unwrap_or_default();
             match prop.as_str() {
                 "c09" => c09::generate(&a.tier, a.seed),
+                "c10" => c10::generate(&a.tier, a.seed),
+                "c11" => c11::generate(&a.tier, a.seed),
                 _ => { eprintln!("unknown property {}", prop); std::process::exit(2) }
             }
         }
